@@ -178,7 +178,7 @@ func cmdForward() {
 	only := hx.Arg("-only", "")
 	nreq := hx.ArgInt("-nreq", 1)
 	rng := hx.Rand(12)
-	for ei, e := range routers {
+	for _, e := range routers {
 		if only != "" && !strings.Contains(e.Pkg+"."+e.Ctor, only) {
 			continue
 		}
@@ -190,6 +190,8 @@ func cmdForward() {
 		desc := cp.desc
 		nm := len(desc.Methods) + len(desc.Streams)
 		for mi := 0; mi < nm; mi++ {
+			// (handler panics are caught per invocation; this is for crashes that cannot be caught)
+			hx.Current(map[string]any{"router": e.Pkg + "." + e.Ctor, "method_index": mi})
 			for si := range scripts {
 				for q := 0; q < nreq; q++ {
 					s := scripts[si]
@@ -201,7 +203,6 @@ func cmdForward() {
 				}
 			}
 		}
-		_ = ei
 	}
 	icptDirect(out, rng)
 	fmt.Fprintln(os.Stderr, "routerx forward: observations:", out.N)
@@ -232,7 +233,6 @@ func (fw *fwdWorld) invoke(desc *grpc.ServiceDesc, mi int, inv int) *fwdObs {
 		w.orig = proto.Clone(m)
 	}
 
-	// cr (on the stack so that a panicking handler still leaves it readable)
 	ctx, cancel := context.WithCancel(context.Background())
 	defer cancel()
 	var resp any
@@ -246,7 +246,6 @@ func (fw *fwdWorld) invoke(desc *grpc.ServiceDesc, mi int, inv int) *fwdObs {
 		if s.Icpt {
 			ic = name.IfAbsentUnaryInterceptor(s.Dflt)
 		}
-		hx.Current(map[string]any{"router": e.Pkg + "." + e.Ctor, "method": o.Method, "script": s})
 		o.Panic = hx.Catch(func() {
 			resp, err = md.Handler(fw.implOf(desc), ctx, func(in any) error { makeReq(in); return nil }, ic)
 		})
@@ -265,7 +264,6 @@ func (fw *fwdWorld) invoke(desc *grpc.ServiceDesc, mi int, inv int) *fwdObs {
 		o.CStream = sd.ClientStreams
 		ss = &fakeServerStream{ctx: ctx, failAt: s.Cf}
 		ss.reqHook = makeReq
-		hx.Current(map[string]any{"router": e.Pkg + "." + e.Ctor, "method": o.Method, "script": s})
 		o.Panic = hx.Catch(func() {
 			if s.Icpt {
 				ic := name.IfAbsentStreamInterceptor(s.Dflt)
